@@ -115,7 +115,7 @@ class Run:
         kw = dict(eul_grid_forcing_field=self.sim.eul_grid_forcing_field,
                   eul_grid_velocity_field=self.sim.velocity_field, virtual_boundary_stiffness_coeff=case["coeffs"][0],
                   virtual_boundary_damping_coeff=case["coeffs"][1], dx=self.sim.dx, grid_dim=dim, real_t=real_t,
-                  start_time=cfg["time0"])
+                  start_time=cfg["time0"], num_threads=cfg["threads"])  # the examples hand the simulator's thread count on
         if case.get("body", "rigid") == "rod":
             spec = dict(case["rod"], n_elems=ROD_ELEMS, length=0.35 + 0.1 * (case["rod"]["length"] / 3.0),
                         radius=0.03 + 0.1 * case["rod"]["radius"], taper="uniform",
